@@ -49,7 +49,7 @@ ENDS = ['pass', 'fail', 'hard', 'acthard', 'cleanuphard']
 QUICK_ENDS = ['pass', 'fail', 'hard']
 SDS_KINDS = ['arg', 'argTmp', 'shell', 'defStr', 'defPath', 'defCd', 'file', 'fileHere', 'env', 'program', 'ba',
              'cleanup', 'equals', 'matches', 'exists', 'dirContents', 'stdoutFrom', 'mkDir', 'copy', 'cdAct']
-SYM_KINDS = ['strArg', 'listArg', 'shellStr', 'envStr', 'fileStr', 'progSym', 'timeoutInt', 'cleanupArg', 'exitCode',
+SYM_KINDS = ['strArg', 'listArg', 'listDef', 'shellStr', 'envStr', 'fileStr', 'progSym', 'timeoutInt', 'cleanupArg', 'exitCode',
              'numLines', 'lineNum', 'lineNums', 'equalsStr', 'matchesRx', 'pathExists', 'textMatcher', 'textTransformer',
              'intMatcher', 'lineMatcher']
 # (finding D13, fixed in /repo: the range of `filter -line-nums` in an instruction of a suite kept the value of the
@@ -171,7 +171,7 @@ def own_definitions(n):
 
 def sym_value(kind, n):
     """what a recording instruction of the suite must record in a case that defines the values number n"""
-    return 'a%d b%d' % (n, n) if kind == 'listArg' else 's%d' % n
+    return 'a%d b%d' % (n, n) if kind == 'listArg' else 'x s%d y' % n if kind == 'listDef' else 's%d' % n
 
 
 def sym_lines(kind, tag):
@@ -180,6 +180,7 @@ def sym_lines(kind, tag):
     return {
         'strArg': [val + '@[V_S]@'],
         'listArg': ['% sh @HOME@/valn.sh ' + tag + ' @[V_L]@'],
+        'listDef': ['def list K_L = x @[V_S]@ "y"', '% sh @HOME@/valn.sh ' + tag + ' @[K_L]@'],
         'shellStr': ['$ sh @HOME@/val.sh %s "@[V_S]@"' % tag],
         'envStr': ['env K_V = @[V_S]@', '$ sh @HOME@/val.sh %s "$K_V"' % tag],
         'fileStr': ['file -rel-tmp ks.txt = "@[V_S]@"', '% sh @HOME@/cat.sh ' + tag + ' @[EXACTLY_TMP]@/ks.txt'],
